@@ -219,7 +219,10 @@ def run_unit(unit, tier):
                 res.map = {"functions": [], "lines": [], "ranges": {}, "lost_hints": []}
                 for oid, o in bp.items():
                     res.obligations[oid] = {"props": o["props"], "fn": o["fn"], "line": 0, "text": o.get("text", "")}
-                res.rejected = [(fid, "extraction failed: " + str(e))]
+                # a method that is gone from a trait declaration is gone from (or changed in) its implementations too
+                meth = fid.split(".")[-1]
+                fns = {o["fn"] for o in bp.values() if o.get("fn") and (o["fn"] == fid or o["fn"].split(".")[-1] == meth)} | {fid}
+                res.rejected = [(f, "extraction failed: " + str(e)) for f in sorted(fns)]
         return res
     res.map = m
     json.dump(m, open(gen + ".map.json", "w"), indent=1)
